@@ -241,6 +241,46 @@ def CodeSt3.init (P : Parser Path Key Page Content)
   { toSt := St.init P srcs post e,
     graph := fun s => if s ∈ srcs ∧ (e s).isSome then recorded e s else [] }
 
+/-! ## Layer 4: two sources which yield one output key (fix 70b888c)
+
+`self.pages` holds one page per output key: where two YAML files define one ref it is the page of the file
+generated last. When that file stops yielding the key (it is deleted, or the entry is taken out of it) the
+key is dropped from the store, and `_Project._regenerate_other_generators` generates the *other* files
+which yield a dropped key again. (The code asks `GizaCategory.outputs`, what each file yielded the last
+time it was generated; the model asks what it yields in the current environment.) -/
+
+/-- the keys among `keys` filed under source `p` which `out`, what `p` yields now, does not hold any more -/
+def droppedKeys (keys : List Key) (s : Store Path Key Page) (p : Path) (out : List (Key × Page)) : List Key :=
+  keys.filter (fun k => match s k with
+    | some (_, q) => decide (q = p) && !(out.any (fun kp => decide (kp.1 = k)))
+    | none => false)
+
+/-- `GizaYamlDomain.other_generators`: the existing sources other than `p` which yield one of the dropped keys -/
+def otherGenerators (P : Parser Path Key Page Content) (srcs : List Path) (e : Env Path Content)
+    (p : Path) (dropped : List Key) : List Path :=
+  srcs.filter (fun q => decide (q ≠ p) && (e q).isSome && (P.parse e q).any (fun kp => decide (kp.1 ∈ dropped)))
+
+/-- re-parse one source and then every other source which yields a key that was dropped on the way -/
+def refreshShared (P : Parser Path Key Page Content) (srcs : List Path) (keys : List Key) (e : Env Path Content)
+    (s : Store Path Key Page) (p : Path) : Store Path Key Page :=
+  let out := if p ∈ srcs ∧ (e p).isSome then P.parse e p else []
+  (otherGenerators P srcs e p (droppedKeys keys s p out)).foldl (refresh P srcs e) (refresh P srcs e s p)
+
+def stepShared (P : Parser Path Key Page Content) (srcs : List Path) (keys : List Key) (post : Store Path Key Page → Result)
+    (st : St Path Key Page Content Result) (x : Op Path Content × List Path) : St Path Key Page Content Result :=
+  match x.1 with
+  | .postprocess => if st.dirty then { st with cache := post st.store, dirty := false } else st
+  | op =>
+    { env := op.env st.env,
+      store := x.2.foldl (refreshShared P srcs keys (op.env st.env)) st.store,
+      cache := st.cache,
+      dirty := true }
+
+def runShared (P : Parser Path Key Page Content) (srcs : List Path) (keys : List Key) (post : Store Path Key Page → Result)
+    (st : St Path Key Page Content Result) : List (Op Path Content × List Path) → St Path Key Page Content Result
+  | [] => st
+  | x :: rest => runShared P srcs keys post (stepShared P srcs keys post st x) rest
+
 /-! ## The code before the fix (store part only) -/
 
 /-- `update` / `delete` as written before the fix: stale outputs of a multi-output source are never dropped -/
